@@ -447,10 +447,24 @@ class Machine:
         self.on_call = on_call
         self.leaves = []
         self.steps = 0
+        self.concrete_iter = True
+        self.havocked = 0
 
     # ---- public
     def run(self, body, args=None, start_block=0):
         """args: list of V for the MIR argument locals (default Sym('argN' / names))."""
+        try:
+            self.concrete_iter = True
+            return self._run(body, args, start_block)
+        except Undecided as e:
+            if "abstract paths" not in str(e) and "step budget" not in str(e):
+                raise
+            # path explosion while unrolling a constant loop with branches inside: fall back to loop summaries
+            self.concrete_iter = False
+            self.steps = 0
+            return self._run(body, args, start_block)
+
+    def _run(self, body, args=None, start_block=0):
         st = State()
         st.facts.update(self.preset)
         fr = Frame(body.path, body.mir, 0)
@@ -757,8 +771,10 @@ class Machine:
                 n = fr.visits.get(fr.block, 0) + 1
                 fr.visits[fr.block] = n
                 if n > self.max_visits:
-                    self.leaves.append(Leaf("cut", None, st, {"fn": fr.path, "block": fr.block}))
-                    return
+                    if not self._havoc_loop(st, fr):
+                        self.leaves.append(Leaf("cut", None, st, {"fn": fr.path, "block": fr.block}))
+                        return
+                    continue
             stmts = blk["stmts"]
             while fr.idx < len(stmts):
                 s = stmts[fr.idx]
@@ -811,6 +827,59 @@ class Machine:
                 self.leaves.append(Leaf("diverge", None, st, {"term": k, "fn": fr.path}))
                 return
 
+    def _havoc_loop(self, st, fr):
+        """Summarise the natural loop whose header is reached for the third time on this path: every local assigned in the
+        loop becomes Call("<loop>", [its current value]) (so string-to-string chains keep their inner template), and the
+        path continues at the loop's exit. Returns False if the block is not a loop header with a single exit target."""
+        from . import cfgkit
+        key = id(fr.mir)
+        cache = self.__dict__.setdefault("_loopcache", {})
+        if key not in cache:
+            cfg = cfgkit.CFG(fr.mir)
+            cache[key] = (cfg, cfg.natural_loops())
+        cfg, loops = cache[key]
+        L = None
+        header = fr.block
+        if header in loops:
+            L = loops[header]
+        else:
+            # the repeatedly visited block may be inside the loop body: pick the innermost loop containing it
+            cands = [(len(b), h, b) for h, b in loops.items() if header in b]
+            if cands:
+                _, header, L = min(cands)
+        if L is None:
+            return False
+        exits = []
+        for b in L:
+            for sx in cfg.succ[b]:
+                if sx not in L and fr.mir["blocks"][sx].get("term", {}).get("k") != "unreachable" and sx not in exits:
+                    exits.append(sx)
+        if len(exits) != 1:
+            return False
+        assigned = set()
+        for b in L:
+            blk = fr.mir["blocks"][b]
+            for s_ in blk["stmts"]:
+                if s_["k"] == "assign":
+                    assigned.add(s_["place"]["l"])
+            t = blk.get("term")
+            if t and t["k"] == "call":
+                assigned.add(t["dest"]["l"])
+        tag = "<loop %s bb%d>" % (fr.path.rsplit("::", 1)[-1], header)
+        for l in assigned:
+            cur = fr.cells[l].val
+            if cur is None:
+                continue
+            cur = strip_ref(cur)
+            fr.cells[l].val = Call(tag, [cur if cur is not None else Top("uninit")], "h%d" % l)
+        st.events.append({"k": "loop_summary", "fn": fr.path, "header": header, "locals": sorted(assigned)})
+        st.label.append((tag, "summarised"))
+        self.havocked += 1
+        for b in L:
+            fr.visits.pop(b, None)
+        self._goto(fr, exits[0])
+        return True
+
     @staticmethod
     def _goto(fr, target):
         fr.block = target
@@ -860,6 +929,13 @@ class Machine:
             other_possible = False
         if other_possible:
             forks.append((t["otherwise"], None, True))
+        # targets that are `unreachable` terminators are compiler-proved impossible: do not explore them
+        def _dead(bb):
+            blk = fr.mir["blocks"][bb]
+            return not blk["stmts"] and blk.get("term", {}).get("k") == "unreachable"
+        live = [f for f in forks if not _dead(f[0])]
+        if live:
+            forks = live
         frame_index = len(st.frames) - 1
         for i, (b, vals, is_other) in enumerate(forks):
             s2 = st.fork() if i < len(forks) - 1 else st
@@ -957,6 +1033,28 @@ class Machine:
         nf.on_return = on_return
         st.frames.append(nf)
 
+    @staticmethod
+    def _elements(v):
+        """Remaining elements of a concrete iterable abstract value, or None."""
+        if isinstance(v, Agg) and v.kind == "array":
+            return list(v.fields)
+        if isinstance(v, Agg) and v.kind == "listiter":
+            return list(v.fields[0].fields[v.fields[1].v:])
+        if isinstance(v, Agg) and v.kind == "adt" and v.label and v.label.startswith("std::ops::Range") and len(v.fields) >= 2:
+            lo, hi = v.fields[0], v.fields[1]
+            incl = "RangeInclusive" in v.label
+            if isinstance(lo, CharV) and isinstance(hi, CharV):
+                a, b = ord(lo.c), ord(hi.c) + (1 if incl else 0)
+                if b - a > 4096:
+                    return None
+                return [CharV(chr(x)) for x in range(a, b) if not (0xD800 <= x <= 0xDFFF)]
+            if isinstance(lo, Const) and isinstance(hi, Const) and isinstance(lo.v, int) and isinstance(hi.v, int) and not isinstance(lo.v, bool):
+                b = hi.v + (1 if incl else 0)
+                if b - lo.v > 4096:
+                    return None
+                return [Const(x) for x in range(lo.v, b)]
+        return None
+
     def _display_body(self, tyname):
         t = norm(tyname)
         while t.startswith("&"):
@@ -1017,25 +1115,58 @@ class Machine:
             a, b = strip_ref(args[0]), strip_ref(args[1])
             r = self.binop(st, "Eq", a, b)
             return r
-        # ---- concrete iteration over constant arrays (loops over them unroll instead of being cut)
-        if (name.endswith("::into_iter") or name.endswith("<impl [T]>::iter")) and len(args) == 1 \
-                and isinstance(strip_ref(args[0]), Agg) and strip_ref(args[0]).kind == "array":
-            arr = strip_ref(args[0])
-            if isinstance(arr, Agg) and arr.kind == "array":
-                return Agg("sliceiter", None, None, [arr, Const(0)])
-            return None
-        if name == "<I as std::iter::IntoIterator>::into_iter" and len(args) == 1:
+        # ---- concrete iteration over constant arrays / char ranges / chains of them (such loops unroll)
+        if self.concrete_iter:
+            seg = name.rsplit("::", 1)[-1]
+            if seg in ("into_iter", "iter") and len(args) == 1:
+                els = self._elements(strip_ref(args[0]))
+                if els is not None:
+                    return Agg("listiter", None, None, [Agg("array", None, None, els), Const(0)])
+                if name == "<I as std::iter::IntoIterator>::into_iter":
+                    return args[0]
+            if seg == "chain" and len(args) == 2:
+                a_, b_ = self._elements(strip_ref(args[0])), self._elements(strip_ref(args[1]))
+                if a_ is not None and b_ is not None:
+                    return Agg("listiter", None, None, [Agg("array", None, None, a_ + b_), Const(0)])
+            if seg in ("copied", "cloned", "by_ref") and len(args) == 1:
+                els = self._elements(strip_ref(args[0]))
+                if els is not None:
+                    return Agg("listiter", None, None, [Agg("array", None, None, els), Const(0)])
+            if seg == "rev" and len(args) == 1:
+                els = self._elements(strip_ref(args[0]))
+                if els is not None:
+                    return Agg("listiter", None, None, [Agg("array", None, None, list(reversed(els))), Const(0)])
+            if seg == "next" and len(args) == 1:
+                it = args[0]
+                itv = strip_ref(it)
+                if not (isinstance(itv, Agg) and itv.kind == "listiter"):
+                    els = self._elements(itv)
+                    if els is not None and isinstance(it, Ref) and not it.path:
+                        itv = Agg("listiter", None, None, [Agg("array", None, None, els), Const(0)])
+                        it.cell.val = itv
+                if isinstance(itv, Agg) and itv.kind == "listiter":
+                    arr, idx = itv.fields
+                    fr.visits.clear()
+                    if idx.v < len(arr.fields):
+                        itv.fields[1] = Const(idx.v + 1)
+                        return Agg("adt", "std::option::Option::Some", 1, [arr.fields[idx.v]])
+                    return Agg("adt", "std::option::Option::None", 0, [])
+                return None
+        elif name == "<I as std::iter::IntoIterator>::into_iter" and len(args) == 1:
             return args[0]
-        if name.endswith("::next") and len(args) == 1:
-            it = args[0]
-            itv = strip_ref(it)
-            if isinstance(itv, Agg) and itv.kind == "sliceiter":
-                arr, idx = itv.fields
-                fr.visits.clear()
-                if idx.v < len(arr.fields):
-                    itv.fields[1] = Const(idx.v + 1)
-                    return Agg("adt", "std::option::Option::Some", 1, [arr.fields[idx.v]])
-                return Agg("adt", "std::option::Option::None", 0, [])
+        # ---- exact, version-independent char predicates on constant characters
+        if name.startswith("std::char::methods::<impl char>::") and args:
+            cv = strip_ref(args[0])
+            if isinstance(cv, CharV):
+                meth = name.rsplit("::", 1)[1]
+                o = ord(cv.c)
+                ws = (0x9 <= o <= 0xD) or o in (0x20, 0x85, 0xA0, 0x1680, 0x2028, 0x2029, 0x202F, 0x205F, 0x3000) or 0x2000 <= o <= 0x200A
+                table = {"is_ascii": o < 0x80, "is_whitespace": ws, "is_ascii_digit": 0x30 <= o <= 0x39,
+                         "is_ascii_whitespace": o in (0x20, 0x9, 0xA, 0xC, 0xD), "is_ascii_alphabetic": (0x41 <= o <= 0x5A) or (0x61 <= o <= 0x7A),
+                         "is_ascii_punctuation": o < 0x80 and chr(o) in "!\"#$%&'()*+,-./:;<=>?@[\\]^_`{|}~",
+                         "is_ascii_control": o < 0x20 or o == 0x7F}
+                if meth in table:
+                    return Const(bool(table[meth]))
             return None
         if name == "core::slice::<impl [T]>::contains" and len(args) == 2:
             arr, x = strip_ref(args[0]), strip_ref(args[1])
